@@ -433,7 +433,8 @@ func checkC04(c *Ctx) {
 			for _, b := range pred.Blocks {
 				for _, in := range b.Instrs {
 					if ia, ok := in.(*ssa.IndexAddr); ok {
-						if ld, ok := ia.X.(*ssa.UnOp); ok && ld.Op == token.MUL {
+						// the slice searched: a field read directly, or through a local copy (entries := b.data)
+						if ld, ok := core.Strip(ia.X).(*ssa.UnOp); ok && ld.Op == token.MUL {
 							if fa, ok := ld.X.(*ssa.FieldAddr); ok {
 								sorted[derefNamedName(fa.X.Type())+"."+fieldNameOf(fa.X.Type(), fa.Field)] = true
 							}
@@ -754,7 +755,7 @@ func (c *Ctx) ruleAppendAliasing(id string, pkgRel string) {
 
 // ruleDeadlineRounding implements C04-R10: one rounding of deadlines to bucket keys.
 func (c *Ctx) ruleDeadlineRounding(id string) {
-	ru := c.R.Rule(id, "every function of the timeout list that derives a bucket key from a deadline uses the same rounding (the same time.Time method with the same unit): an entry filed under one rounding and looked up under another is never found again — its timer outlives the acknowledgement and fires on whatever exchange reuses the identifier", "E10 sibling agreement on the rounding call", 2)
+	ru := c.R.Rule(id, "every function of the timeout list that derives a bucket key from a deadline uses the same rounding (the same time.Time method with the same unit): an entry filed under one rounding and looked up under another is never found again — its timer outlives the acknowledgement and fires on whatever exchange reuses the identifier", "E10 sibling agreement on the rounding call", 1)
 	type use struct {
 		method string
 		unit   string
@@ -786,7 +787,11 @@ func (c *Ctx) ruleDeadlineRounding(id string) {
 			c.R.Fn(c.fname(f))
 		}
 	}
-	if !ru.Anchor(len(uses) >= 2, "at least two bucket-key computations (time.Time.Round / Truncate) in wasp/expiration") {
+	if !ru.Anchor(len(uses) >= 1, "a bucket-key computation (time.Time.Round / Truncate) in wasp/expiration") {
+		return
+	}
+	if len(uses) == 1 {
+		ru.OK("deadline rounding in "+c.fname(uses[0].fn), c.whereI(uses[0].at), "computed in one place only ("+uses[0].method+"("+uses[0].unit+")): nothing to disagree with")
 		return
 	}
 	ref := uses[0]
